@@ -21,6 +21,7 @@ func (ip *Inode) shrinkFits(op *alloctxn.AllocTxn, nblk uint64) bool {
 }
 
 func (ip *Inode) IsShrinking() bool {
+	verifAccess(ip, "IsShrinking")
 	cursz := util.RoundUp(ip.Size, disk.BlockSize)
 	s := ip.ShrinkSize > cursz
 	return s
@@ -64,6 +65,7 @@ func (ip *Inode) indshrink(op *alloctxn.AllocTxn, root common.Bnum, level uint64
 // Frees as many blocks as possible, and returns if more shrinking is necessary.
 // 5: inode block, 2xbitmap block, indirect block, double indirect
 func (ip *Inode) Shrink(op *alloctxn.AllocTxn) bool {
+	verifAccess(ip, "Shrink")
 	util.DPrintf(1, "Shrink: from %d to %d\n", ip.ShrinkSize,
 		util.RoundUp(ip.Size, disk.BlockSize))
 	for ip.IsShrinking() && ip.shrinkFits(op, 5) {
